@@ -86,7 +86,7 @@ def identities():
     vals = [np.zeros((2, 3), np.float32), np.zeros((2,), np.float32), np.zeros((2, 3), np.int32), jnp.zeros((2, 3)), jnp.zeros((2,), jnp.int32),
             jnp.zeros(()), jnp.float32(1.0), np.float32(1.0), np.zeros(()), 1, 1.5, True, 1j, "s", None, Duck((2, 3), "float32"), [1.0, 2.0],
             jax.random.key(0), jax.random.PRNGKey(0), jnp.zeros((), jnp.int32)]
-    vec = lambda ann: [R.verdict(lambda: isinstance(v, ann)) for v in vals]
+    vec = lambda ann: [R.verdict(lambda: R.matches(v, ann)) for v in vals]
     TB = typing.TypeVar("TB", bound=np.ndarray)
     TC = typing.TypeVar("TC", np.ndarray, jax.Array)
     TF_ = typing.TypeVar("TF_")
